@@ -502,6 +502,8 @@ fn run_cli(argv: &[Vec<u8>]) -> (i64, String) {
         } else if code == 0 && so.starts_with(b"julian-cli ") {
             format!("exit=0 VERSION{}", if out.stderr.is_empty() { "" } else { " err=1" })
         } else {
+            // "a non-zero status": which one is not part of any property
+            let code = i64::from(code != 0);
             format!("exit={code} out=x{} err={}", hex_of_bytes(&so), b01(!out.stderr.is_empty()))
         };
         return (before, ans);
@@ -623,6 +625,30 @@ fn answer_lib(line: &str) -> String {
                     show_shape(&s)
                 }
             }
+        }
+        ["shape_eq", c1, y1, m1, c2, y2, m2] => {
+            let a = cal!(c1);
+            let b = cal!(c2);
+            let y1: i32 = p!(y1.parse().ok());
+            let y2: i32 = p!(y2.parse().ok());
+            let sa = a.month_shape(y1, p!(month_of_tok(m1)));
+            let sb = b.month_shape(y2, p!(month_of_tok(m2)));
+            let eq = sa == sb;
+            // every way of asking says the same
+            assert_eq!(eq, !(sa != sb));
+            assert_eq!(eq, sb == sa);
+            if let (Some(x), Some(y)) = (sa, sb) {
+                assert_eq!(eq, x == y);
+                assert_eq!(eq, x.days() == y.days(), "Days of equal shapes");
+                assert_eq!(eq, x.dates() == y.dates(), "Dates of equal shapes");
+                if eq {
+                    // equal shapes are observably the same
+                    assert!(x.calendar() == y.calendar() && x.year() == y.year() && x.month() == y.month());
+                    assert!(x.len() == y.len() && x.kind() == y.kind() && x.gap() == y.gap());
+                    assert!(x.days().collect::<Vec<_>>() == y.days().collect::<Vec<_>>());
+                }
+            }
+            format!("{} {}", b01(eq), b01(hash_of(&sa) == hash_of(&sb)))
         }
         ["shapeq", ct, y, m, x] => {
             let c = cal!(ct);
